@@ -192,7 +192,7 @@ def _try_cast(s):
     kind = s[i + 1:-1]
     head = s[:i].rstrip()
     k = head.find(" as ")
-    if i > 0 and k > 0 and s[i - 1] == " " and re.match(r"(IntToInt|IntToFloat|FloatToInt|FloatToFloat|Transmute|PtrToPtr|FnPtrToPtr|PointerCoercion|PointerExposeProvenance|PointerWithExposedProvenance)(\(.*\))?$", kind):
+    if i > 0 and k > 0 and s[i - 1] == " " and re.match(r"(IntToInt|IntToFloat|FloatToInt|FloatToFloat|Transmute|Subtype|PtrToPtr|FnPtrToPtr|PointerCoercion|PointerExposeProvenance|PointerWithExposedProvenance)(\(.*\))?$", kind):
         try:
             return Rvalue("cast", op=parse_operand(head[:k]), ty=head[k + 4:], cast=kind)
         except MirSyntax:
